@@ -160,6 +160,10 @@ def run_case(case, keep_dir=None):
             responses = []
             for i, r in enumerate(rnd):
                 url = 'http://h.test/p{}/r{}?q={}'.format(rnd_index, serial, i)
+                if rng.random() < 0.1:
+                    # very long URLs (around and beyond 1024 characters, where header writers start to fold lines)
+                    total = rng.choice([1023, 1024, 1025, 1500, 2100, 4000])
+                    url += '&pad=' + 'x' * max(1, total - len(url) - 5)
                 serial += 1
                 post_body = None
                 if r['method'] == 'GET' and rng.random() < 0.15:
